@@ -23,7 +23,7 @@ CLAIMED = {
  "C14": ("all schedules of termination cause x awaiting pattern x observer kind (and of the registry operations that depend on the answers), on two builds (release semantics, debug assertions on); stopped()/running() answers compared with the termination step on every execution", ""),
  "C15": ("every non-empty subset of {Addr, OwningAddr, Sender, Caller} as the only surviving strong handles, built through three conversion paths, with self-stop, self-restart, interval, delayed_send and every weak upgrade probed; all schedules", ""),
  "C17": ("all schedules of owner scripts (join, repeated and concurrent joins, consume, consume_sync, detach, to_addr+drop, late variants) against submitters, a stopper and failure causes; join-after-termination, final-state, handed-out-once clauses on every execution", ""),
- "C18": ("the same family (23 spawn entry points x 13 timing-independent client programs) is explored with all schedules on three builds of the harness - tokio_runtime, async_runtime, smol_runtime, each spawner running unchanged on its shim; per execution the spawned actor must answer a call issued after the spawn expression returned, per program the set of outcomes over all schedules must be identical on the three builds; the shims are bound to the real runtimes by a conformance suite run on real tokio (current-thread and multi-thread), async-std and smol", "the three runtimes are represented by their shims (conformance-tested against the real ones on every run)"),
+ "C18": ("the same family (23 spawn entry points x 16 timing-independent client programs, plus all owner scripts of C17 on the owning entry points; and, with their own oracles off, the whole case families of C17 - thorough: C17, C02, C04, C13 -) is explored with all schedules on three builds of the harness - tokio_runtime, async_runtime, smol_runtime, each spawner running unchanged on its shim; per execution the spawned actor must answer a call issued after the spawn expression returned, per program the set of outcomes over all schedules must be identical on the three builds; the shims are bound to the real runtimes by a conformance suite run on real tokio (current-thread and multi-thread), async-std and smol", "the three runtimes are represented by their shims (conformance-tested against the real ones on every run)"),
 }
 
 REASON_PENDING = "check not built yet in this round (planned, DESIGN.md section 3); not claimed until it runs"
